@@ -1064,8 +1064,12 @@ def format_quantiles(a_list: list[float]) -> list[str]:
     list[str]
         List of boundaries per quantile
     """
-    # scientific formatting
-    formatted_list = [f"{number:.3e}" for number in a_list]
+    # scientific formatting, adding digits as long as distinct quantiles share a label
+    n_digits = 3
+    formatted_list = [f"{number:.{n_digits}e}" for number in a_list]
+    while len(set(formatted_list)) < len(set(a_list)) and n_digits < 17:
+        n_digits += 1
+        formatted_list = [f"{number:.{n_digits}e}" for number in a_list]
 
     # stripping whitespaces
     formatted_list = [string.strip() for string in formatted_list]
